@@ -1407,7 +1407,7 @@ def to_v1(matchline: MatchLine, version: Version = LATEST_VERSION) -> MatchLine:
         return MatchSustainPedal.from_instance(instance=matchline, version=version)
 
     if isinstance(matchline, BaseSoftPedalLine):
-        return MatchSustainPedal.from_instance(instance=matchline, version=version)
+        return MatchSoftPedal.from_instance(instance=matchline, version=version)
 
     else:
         print(matchline.matchline)
